@@ -435,7 +435,24 @@ inline Verdict c05_oracle(const ApiCase &a, const ApiObs &o, bool *failed_out = 
   bool failed = o.returned_null || (!o.ret.empty() && o.ret[0] == '*') || (a.entry <= E_CRYPT_R && !o.returned_null && o.ret.empty());
   if (failed_out) *failed_out = failed;
   if (must && !failed) return "C05 call that cannot produce a hash (" + why + ") returned \"" + vis(o.ret, 200) + "\"" + d;
-  if (!failed) return "";
+  if (!failed) {
+    // A call that reports success must have produced a hash: a string of the method's documented shape.
+    // Anything else means the call could not produce a hash and yet did not fail closed.
+    Method m = result_method(a.setting, a.phrase.size());
+    if (m == M_NONE || !passwd_safe(o.ret)) return "C05 a call reported success with a string that is not a hash: \"" + vis(o.ret, 200) + "\"" + d;
+    if (classify_tag(o.ret) != classify_tag(a.setting)) return "C05 a call reported success with a result of another method: \"" + vis(o.ret, 200) + "\"" + d;
+    Split sp = split_hash(m, o.ret);
+    size_t dl = digest_len(m);
+    if (!sp.ok || (dl && sp.digest.size() != dl) || (!dl && sp.digest.size() % 11 != 0) || !all_in(sp.digest, digest_alphabet(m)))
+      return "C05 a call reported success with a string that does not end in a digest of its method: \"" + vis(o.ret, 200) + "\", errno " + std::to_string(o.err) + d;
+    // ... and that string must verify: hashing the phrase with it reproduces it (otherwise nothing can ever authenticate against it).
+    // Known finding K1 (KNOWN_FINDINGS.txt): scrypt results longer than 339 characters are not accepted back.
+    if (!(m == M_SCRYPT && o.ret.size() > 339)) {
+      HashRes h = hash_rn(a.phrase, o.ret);
+      if (!h.ok || h.out != o.ret) return "C05 a call reported success with a string that does not verify (crypt(P, result) gives " + (h.ok ? "\"" + vis(h.out, 120) + "\"" : std::string("failure")) + "): \"" + vis(o.ret, 200) + "\", errno " + std::to_string(o.err) + d;
+    }
+    return "";
+  }
   // return value
   if (a.entry >= E_CRYPT_RN && !o.returned_null) return "C05 " + std::string(ENTRY_NAME[a.entry]) + " returned a string on failure: \"" + vis(o.ret, 100) + "\"" + d;
   if (a.entry <= E_CRYPT_R) {
